@@ -9,7 +9,7 @@ A history is a list of commands for harness/drive_level; the first one is an ini
   {"o":"sweep","ax":"vel"|"vol"|"expr"|"mv"|"bright","ch":c,"k":k,"lo":a,"hi":b,"st":+-s}
   {"o":"gen","fr":frames,"blk":frames per opn2_generate call}     time passes (arpeggio turns, notes end)
   {"o":"bend","ch":c,"v":0..16383}                                pitch bend (re-keys the notes of the channel)
-init options: "arp":1 automatic arpeggio on, "lim":n only n chip channels, "kon":1 record every key-on of a chip
+init options: "rsxx":1 EA-MUS music mode (a tiny song is loaded first), "arp":1 automatic arpeggio on, "lim":n only n chip channels, "kon":1 record every key-on of a chip
 channel with the TL registers in force and the note that owns the channel (+ the sounding notes after every call).
 """
 import itertools, random
@@ -39,7 +39,7 @@ def banks(tlset=0, veloffs=None, tls=None):
     return [{"p": 0, "msb": 0, "lsb": 0, "ins": mel}, {"p": 1, "msb": 0, "lsb": 0, "ins": perc}]
 
 
-def init(vm, smod=0, frb=0, tlset=0, veloffs=None, tls=None, ports=1, arp=0, lim=0, kon=0, kon_ms=None):
+def init(vm, smod=0, frb=0, tlset=0, veloffs=None, tls=None, ports=1, arp=0, lim=0, kon=0, kon_ms=None, rsxx=0):
     d = {"o": "init", "vm": vm, "smod": smod, "frb": frb, "lim": lim, "banks": banks(tlset, veloffs, tls)}
     if ports > 1:
         d["ports"] = ports       # channels 16..31 = second MIDI port (as in a song with FF 09 device names)
@@ -47,6 +47,8 @@ def init(vm, smod=0, frb=0, tlset=0, veloffs=None, tls=None, ports=1, arp=0, lim
         d["arp"] = 1
     if kon:
         d["kon"] = 1
+    if rsxx:
+        d["rsxx"] = 1            # an EA-MUS song is loaded first: music mode RSXX (locked set-up, re-strikes update the velocity)
     if kon_ms is not None:       # how long a held note of the bank counts as sounding (the arpeggio drops it afterwards)
         for b in d["banks"]:
             for i in b["ins"]:
@@ -258,6 +260,74 @@ def congestion_histories(rng, n, longer=False, bends=False):
                 out.append(h)
     while len(out) < n:
         out.append(congestion_history(rng, longer=longer, bends=bends))
+    return out[:n]
+
+
+# ------------------------------------------------------------------ EA-MUS (RSXX) mode: re-strikes
+RSXX_OFFS = [-128, -20, -1, 0, 1, 127]
+
+
+def ladder(off):
+    """velocities around the point where velocity + offset crosses the clamps"""
+    a = abs(off)
+    xs = {1, 2, 64, 126, 127, a - 1, a, a + 1, a + 2, 127 - a - 1, 127 - a, 127 - a + 1}
+    return sorted(x for x in xs if 1 <= x <= 127)
+
+
+def rsxx_history(rng, offs=None, perc=None, vm=None):
+    """Music mode RSXX: a NoteOn for a key that is sounding is a velocity update of the sounding note.  Instruments with
+    velocity offsets (every program / drum key its own), a first strike, then ladders of re-strikes going down and up through
+    1, |offset| - 1, |offset|, |offset| + 1, 127, full velocity sweeps, other controls in between; melodic and percussion
+    channels; every volume model is asked for (the lock keeps Generic in force) and set again on the way."""
+    offs = offs or [rng.choice(RSXX_OFFS + [rng.randrange(-128, 128)]) for _ in range(8)]
+    vm = rng.randrange(6) if vm is None else vm
+    tls = None if rng.random() < 0.6 else [[rng.choice([0, 1, 63, 64, 126, 127, rng.randrange(128)]) for _ in range(4)] for _ in range(8)]
+    h = [init(vm, rng.randrange(2), rng.randrange(2), tlset=rng.randrange(2), tls=tls, veloffs=list(offs), rsxx=1)]
+    algs = rng.sample(range(8), rng.choice([2, 3, 4]))
+    for j, alg in enumerate(algs):
+        pc_ = (rng.random() < 0.3) if perc is None else perc
+        ch, k = (9, DRUM0 + alg) if pc_ else (rng.choice([0, 1, 2, 5, 15]), KEY + j)
+        off = offs[alg]
+        if not pc_:
+            h.append({"o": "pc", "ch": ch, "p": alg})
+        if rng.random() < 0.4:
+            h.append({"o": "cc", "ch": ch, "n": 7, "v": rng.choice([127, 100, 64, 1])})
+        if rng.random() < 0.2:
+            h.append({"o": "cc", "ch": ch, "n": 67, "v": 127})       # the soft pedal acts on the first strike only
+        lad = ladder(off)
+        h.append({"o": "on", "ch": ch, "k": k, "v": rng.choice([127, 100, lad[len(lad) // 2]])})
+        for x in reversed(lad):
+            h.append({"o": "on", "ch": ch, "k": k, "v": x})
+        if rng.random() < 0.3:
+            h.append({"o": "set", "s": "vm", "v": rng.randrange(6)})
+        for x in lad:
+            h.append({"o": "on", "ch": ch, "k": k, "v": x})
+        r = rng.random()
+        if r < 0.4:
+            h.append(sweep("vel", ch, k, 127, 1, -1) if rng.random() < 0.5 else sweep("vel", ch, k, 1, 127, 1))
+        elif r < 0.7:
+            a = abs(off)
+            lo, hi = max(1, a - 6), min(127, a + 6)
+            h += [sweep("vel", ch, k, hi, lo, -1), sweep("vel", ch, k, lo, hi, 1)]
+        if rng.random() < 0.5:
+            h += [{"o": "cc", "ch": ch, "n": 11, "v": rng.choice([0, 64, 127])}, {"o": "on", "ch": ch, "k": k, "v": rng.choice(lad)},
+                  {"o": "cc", "ch": ch, "n": 11, "v": 127}]
+        if rng.random() < 0.5:
+            # released and struck again: a new note (on the percussion channel the released note lives on: still a re-strike)
+            h += [{"o": "off", "ch": ch, "k": k}, {"o": "on", "ch": ch, "k": k, "v": rng.choice(lad)}, {"o": "on", "ch": ch, "k": k, "v": rng.choice(lad)}]
+        if rng.random() < 0.3:
+            h.append({"o": "cc", "ch": ch, "n": 67, "v": 0})
+    return h
+
+
+def rsxx_histories(rng, n):
+    out = []
+    # every offset of the list on every algorithm position, melodic and percussion, every volume model asked for
+    for i in range(12):
+        offs = [RSXX_OFFS[(a + i) % 6] for a in range(8)]
+        out.append(rsxx_history(rng, offs=offs, perc=(i % 2 == 1), vm=i % 6))
+    while len(out) < n:
+        out.append(rsxx_history(rng))
     return out[:n]
 
 
